@@ -92,3 +92,13 @@ Definition x_snyk_table := snyk_table.
 (* reference comparison procedures (C03) *)
 From UV.Ref Require All.
 Definition x_refcmp := All.ref_cmp.
+
+(* native range expressions (C06) *)
+From Coq Require Import ZArith.
+From UV.Native Require Intervals Shorthand.
+Definition z_nmatch : list (Intervals.alt Z) -> Z -> bool := Intervals.nmatch Z Z.compare.
+Definition z_to_constraints : list (Intervals.alt Z) -> list (Model.constr Z) := Intervals.to_constraints Z.
+Definition x_native_caret := Shorthand.native_caret.
+Definition x_native_same_minor := Shorthand.native_same_minor.
+Definition x_native_same_major := Shorthand.native_same_major.
+Definition x_native_nginx_plus := Shorthand.native_nginx_plus.
